@@ -256,6 +256,86 @@ def classify(func, args, kw):
   return None
 
 
+# ---------------------------------------------------------------------------------------------------------------
+# engine level: values that formulas actually return (records, record sets read back from reference-list cells, lookups,
+# containers of them, errors, odd Python objects) travel through the reply of apply_user_actions and fetch_table exactly
+# as sandbox/grist/main.py builds them; every reply must be accepted by marshal and every cell must round-trip
+
+EFORMULAS = [
+  "$M", "$L", "$R", "People.lookupRecords(Name='a')", "People.lookupOne(Name='a')", "[$R, $M]", "{'k': $M}", "$M.Name", "list($M)", "People.all",
+  "rec", "table", "People", "$M.find", "iter($M)", "10**40", "float('nan')", "{1: 2}", "{1, 2}", "b'ab'", "1+2j", "lambda: 1",
+  "datetime.datetime(9999, 12, 31)", "datetime.date(2020, 1, 1)", "$Nope.d", "1/0", "type('S', (str,), {})('x')", "type('I', (int,), {})(5)",
+  "{type('S', (str,), {})('k'): 1}", "$M[0:1]", "(1, [2, (3,)])", "range(3)", "x = []\nx.append(x)\nx", "str", "NotImplemented", "...",
+  "$L.R", "$R.L", "$R.M", "[r.M for r in People.all]", "$M.L", "People.lookupRecords(Name='a', order_by='-Name')", "$M2", "$M2.Name", "sorted($L, key=lambda r: -r.id)",
+  "PREVIOUS(rec, order_by='K')", "RecordSet" , "$K or $M", "($M, $L)", "{'a': {'b': [$R]}}", "AltText('x')", "float('inf')", "-0.0", "2**31", "-2**31 - 1", "True",
+]
+
+
+def _edoc():
+  import logging
+  logging.disable(logging.CRITICAL)
+  import engine, useractions
+  e = engine.Engine()
+  e.load_empty()
+  ap = lambda *uas: e.apply_user_actions([useractions.from_repr(list(u)) for u in uas])
+  ap(["AddTable", "People", [{"id": "Name", "type": "Text", "isFormula": False}, {"id": "L", "type": "RefList:People", "isFormula": False},
+                             {"id": "R", "type": "Ref:People", "isFormula": False},
+                             {"id": "M", "type": "RefList:People", "isFormula": True, "formula": "People.lookupRecords(Name='a')"}]])
+  ap(["AddTable", "T", [{"id": "K", "type": "Int", "isFormula": False}, {"id": "R", "type": "Ref:People", "isFormula": False},
+                        {"id": "L", "type": "RefList:People", "isFormula": False},
+                        # reference lists stored from a RecordSet: a formula column and a trigger-formula (data) column
+                        {"id": "M", "type": "RefList:People", "isFormula": True, "formula": "People.lookupRecords(Name='a')"},
+                        {"id": "M2", "type": "RefList:People", "isFormula": False, "formula": "People.lookupRecords(Name='b')", "recalcWhen": 2}]])
+  ap(["BulkAddRecord", "People", [None] * 3, {"Name": ["a", "b", "a"], "L": [["L", 2], None, ["L", 1, 3]], "R": [2, 0, 1]}])
+  ap(["BulkAddRecord", "T", [None] * 2, {"K": [1, 0], "R": [1, 0], "L": [["L", 3, 1], None]}])
+  return e, ap
+
+
+def _reply_problems(e, ag):
+  import actions
+  reply = dict(rowCount=e.count_rows(), **e.acl_split(ag).to_json_obj())
+  out = []
+  for name, obj in [("apply_user_actions reply", reply)] + [("fetch_table(%s)" % t, actions.get_action_repr(e.fetch_table(t))) for t in ("T", "People")]:
+    try:
+      marshal.dumps(obj, 2)
+    except Exception as ex:
+      out.append("%s is rejected by marshal: %s" % (name, ex))
+    if not _safe(_plain(obj)):
+      out.append("%s contains a value that is not of an exact builtin type" % name)
+  return out
+
+
+def _plain(obj):
+  """reply structures use int keys / bools at the top level; the check is about the cell values: normalise dict keys"""
+  if type(obj) is dict:
+    return {str(k): _plain(v) for k, v in obj.items()}
+  if type(obj) in (list, tuple):
+    return [_plain(x) for x in obj]
+  return obj
+
+
+def engine_value(fi, where):
+  e, ap = _edoc()
+  f = EFORMULAS[fi]
+  if where == 0:
+    ag = ap(["AddColumn", "T", "V", {"type": "Any", "isFormula": True, "formula": f}])
+  elif where == 1:
+    ag = ap(["AddColumn", "T", "V", {"type": "Any", "isFormula": False, "formula": f, "recalcWhen": 2}], ["UpdateRecord", "T", 1, {"K": 5}])
+  else:
+    ag = ap(["AddColumn", "T", "V", {"type": "Text", "isFormula": True, "formula": f}])
+  probs = _reply_problems(e, ag)
+  if probs:
+    raise AssertionError("; ".join(probs)[:400])
+  ag2 = ap(["UpdateRecord", "People", 2, {"Name": "a"}])       # changes what the lookups return
+  probs = _reply_problems(e, ag2)
+  if probs:
+    raise AssertionError("after a data edit: " + "; ".join(probs)[:400])
+  for v in e.fetch_table("T").columns["V"]:
+    if not _rt(v):
+      raise AssertionError("cell value %r of formula %r does not round-trip" % (objtypes.encode_object(v), f))
+  return True
+
+
 OBLIGATIONS = [
   {"func": "scalar_int_short", "cond_timeout": 60, "desc": "every int in [-2^31-2, 2^31+2] (both sides of the 32-bit cut)"},
   {"func": "scalar_int_long", "cond_timeout": 30, "desc": "every int outside 32 bits (['U', str(v)] form; str(int) is hard for z3: counterexample search only)"},
@@ -276,11 +356,14 @@ ENUM = [
   {"func": "special", "domains": {"k": list(range(len(SPECIALS)))}, "shard_by": None, "max_s": 200, "desc": _SPECIAL_DESC},
   {"func": "special_in_container", "domains": {"k": list(range(len(SPECIALS))), "c": [0, 1, 2, 3]}, "shard_by": "c", "max_s": 200,
    "desc": "each special value inside a list, a tuple, a dict value and a nested list"},
+  {"func": "engine_value", "domains": {"fi": list(range(len(EFORMULAS))), "where": [0, 1, 2]}, "shard_by": "where", "max_s": 300,
+   "desc": "engine level: %d formulas (records, record sets read back from reference-list cells, lookups, containers, odd objects) in an Any formula "
+           "column, a trigger-formula data column and a Text formula column: replies built as in main.py are marshalled; cells round-trip" % len(EFORMULAS)},
   {"func": "big_ints", "domains": {"b": list(range(len(BIG))), "k": list(range(-3, 4))}, "shard_by": None, "max_s": 100,
    "desc": "ints within 3 of 2^31, -2^31, 2^53, 2^63, 10^30, 0 (bare, in a list, in a dict)"},
 ]
 BOUNDS = {"strings": "len <= %d" % SL, "containers": "len <= 2, depth <= 2 (+ one 3000-deep list)", "specials": len(SPECIALS)}
-FILES = ["sandbox/grist/objtypes.py", "sandbox/grist/actions.py"]
+FILES = ["sandbox/grist/objtypes.py", "sandbox/grist/actions.py", "sandbox/grist/records.py", "sandbox/grist/engine.py", "sandbox/grist/main.py"]
 ASSUMPTIONS = ["marshal-safety = the encoded form consists of exact builtin str/int/float/bool/None/list/tuple/dict-with-str-keys and "
                "marshal.dumps(encoded, 2) succeeds (the transport in sandbox.py)",
                "catalogue values (specials, boundary ints) are concrete objects no symbolic type describes: they are enumerated (z3 AllSAT over "
